@@ -788,4 +788,117 @@ theorem spec_parseOperationDefinition (n : Nat) :
         q3.2.2.1).cast ?_ rfl
       simp [e2, q1]
 
+/-- a fragment definition: position of its first token, derivation, well-formedness -/
+def PFrag (f : FragmentDef) (u : List Token) : Prop :=
+  (∃ t rest, u = t :: rest ∧ f.pos.start = t.start) ∧
+    Derives gql (.nt .fragmentDefinition) (tk u) (printFragment f) ∧ WFFragment f
+
+theorem derives_fragment (f : FragmentDef) (hname : f.name ≠ str "on") (hvars : ∀ v ∈ f.vars, WFVarDef v)
+    {tsSS : List Tok} (hss : Derives gql (.nt .selectionSet) tsSS (printSelectionSet f.sel)) :
+    Derives gql (.nt .fragmentDefinition)
+      (tKw "fragment" :: tName f.name :: (printVarDefs f.vars ++ (tKw "on" :: tName f.typeCond ::
+        (printDirectives f.dirs ++ tsSS))))
+      (printFragment f) := by
+  have hfn : L (.nt .fragmentName) [tName f.name] := L.nt (L.tok (by simp [tName, hname]))
+  have htc : L (.nt .typeCondition) [tKw "on", tName f.typeCond] := L.nt (L.cons (L.kw "on") (L.namedType f.typeCond))
+  have := Derives.nt (n := NT.fragmentDefinition) (Derives.seq (L.kw "fragment") (Derives.seq hfn
+    (Derives.seq (L_optVarDefs f.vars hvars) (Derives.seq htc (Derives.seq (L_optDirectives false f.dirs (by simp)) hss)))))
+  exact this.cast (by simp) (by simp [printFragment])
+
+theorem spec_parseFragmentDefinition (n : Nat) : Spec (parseFragmentDefinition n) (Eats PFrag) := by
+  unfold parseFragmentDefinition
+  refine (Spec.bind spec_peekPos fun pos => Spec.bind (spec_expectKeyword kwFragment) fun _ =>
+    Spec.bind spec_parseFragmentName fun name => Spec.bind (spec_parseVariableDefinitions n) fun vars =>
+    Spec.bind (spec_expectKeyword kwOn) fun _ => Spec.bind spec_parseName fun tc =>
+    Spec.bind (spec_parseDirectives n false) fun dirs => Spec.bind (spec_parseRequiredSelectionSet n) fun ss =>
+    Spec.pure _).mono ?_
+  rintro f a a'' _ ⟨pos, a1, ⟨rfl, hpos⟩, tf, a2, ⟨u1, h1, rfl, k1, v1⟩, name, a3, ⟨u2, h2, p2⟩, vars, a4, ⟨u3, h3, p3⟩,
+    ton, a5, ⟨u4, h4, rfl, k4, v4⟩, tc, a6, ⟨u5, h5, p5⟩, dirs, a7, ⟨u6, h6, p6⟩, ss, a8, ⟨u7, h7, p7⟩, rfl, rfl⟩
+  refine ⟨_, (Ate.peeked a).trans (h1.trans (h2.trans (h3.trans (h4.trans (h5.trans (h6.trans h7)))))),
+    ⟨tf, _, rfl, ?_⟩, ?_, p2.2, p3.2, p7.1, p7.2.1⟩
+  · rw [hpos]; exact congrArg Token.start h1.head
+  · refine (derives_fragment { name := name, vars := vars, typeCond := tc, dirs := dirs, sel := ss, pos := pos }
+      p2.2 p3.2 p7.2.2.1).cast ?_ rfl
+    have e1 : Tok.ofToken tf = tKw "fragment" := by simp [Tok.ofToken, tKw, k1, v1, kwFragment]
+    have e4 : Tok.ofToken ton = tKw "on" := by simp [Tok.ofToken, tKw, k4, v4, kwOn]
+    simp [e1, e4, p2.1, p3.1, p5, p6.1]
+
+/-! ### the document -/
+
+abbrev Def := OperationDef ⊕ FragmentDef
+
+def PDef : Def → List Token → Prop
+  | .inl o, u => POp o u
+  | .inr f, u => PFrag f u
+
+def opsOf : List Def → List OperationDef
+  | [] => []
+  | .inl o :: r => o :: opsOf r
+  | .inr _ :: r => opsOf r
+
+def fragsOf : List Def → List FragmentDef
+  | [] => []
+  | .inl _ :: r => fragsOf r
+  | .inr f :: r => f :: fragsOf r
+
+/-- what the document loop establishes: the definitions `defs` (in source order) were parsed one
+    after the other, the operations were appended to `doc.ops` and the fragments to `doc.frags`,
+    and the loop stopped with the look-ahead on the EOF token -/
+def DocRel (doc : QueryDoc) : QueryDoc → AS → AS → Prop := fun d a a' =>
+  ∃ defs used, Ate a a' used ∧ a'.pk = true ∧ a'.σ.head.kind = .eof ∧
+    d.ops = doc.ops ++ opsOf defs ∧ d.frags = doc.frags ++ fragsOf defs ∧ Many PDef defs used
+
+theorem DocRel.cons_op {doc d : QueryDoc} {od : OperationDef} {a a1 a' : AS}
+    (h1 : Eats POp od a a1) (h2 : DocRel { doc with ops := doc.ops ++ [od] } d a1 a') : DocRel doc d a a' := by
+  obtain ⟨u, hu, p⟩ := h1
+  obtain ⟨defs, used, g1, g2, g3, g4, g5, g6⟩ := h2
+  exact ⟨.inl od :: defs, u ++ used, hu.trans g1, g2, g3, by simpa [opsOf] using g4, by simpa [fragsOf] using g5,
+    .cons (x := (.inl od : Def)) p g6⟩
+
+theorem DocRel.cons_frag {doc d : QueryDoc} {fd : FragmentDef} {a a1 a' : AS}
+    (h1 : Eats PFrag fd a a1) (h2 : DocRel { doc with frags := doc.frags ++ [fd] } d a1 a') : DocRel doc d a a' := by
+  obtain ⟨u, hu, p⟩ := h1
+  obtain ⟨defs, used, g1, g2, g3, g4, g5, g6⟩ := h2
+  exact ⟨.inr fd :: defs, u ++ used, hu.trans g1, g2, g3, by simpa [opsOf] using g4, by simpa [fragsOf] using g5,
+    .cons (x := (.inr fd : Def)) p g6⟩
+
+theorem DocRel.peeked {doc d : QueryDoc} {a a' : AS} (h : DocRel doc d { a with pk := true } a') : DocRel doc d a a' := by
+  obtain ⟨defs, used, g1, g⟩ := h
+  exact ⟨defs, used, by simpa using (Ate.peeked a).trans g1, g⟩
+
+theorem spec_queryDocLoop (m : Nat) : ∀ (n : Nat) (doc : QueryDoc), Spec (queryDocLoop m n doc) (DocRel doc)
+  | 0, doc => Spec.of_dead (outOfFuel_dead _)
+  | n + 1, doc => by
+    have ih := spec_queryDocLoop m n
+    unfold queryDocLoop
+    refine (Spec.bind spec_peek fun t => Spec.ite
+      (fun _ => Spec.bind spec_hasErr fun e => Spec.ite (fun _ => Spec.pure doc)
+        (fun _ => Spec.bind spec_peekPos fun _ => Spec.bind spec_peek fun t1 =>
+          (?_ : Spec _ (fun d a a' => a.σ.head = t1 → DocRel doc d a a'))))
+      (fun _ => Spec.pure doc)).mono ?_
+    · split
+      · rename_i hk
+        refine (Spec.bind spec_peek fun t2 => Spec.ite
+          (fun _ => Spec.bind (spec_parseOperationDefinition m) fun od => ih _)
+          (fun _ => Spec.ite (fun _ => Spec.bind (spec_parseFragmentDefinition m) fun fd => ih _)
+            (fun _ => Spec.of_dead_bind (R := fun _ _ _ => False) unexpectedError_dead))).mono ?_
+        rintro d a a'' _ ⟨t2, a1, ⟨rfl, rfl⟩, ⟨_, od, a2, hod, hrest⟩ | ⟨_, ⟨_, fd, a2, hfd, hrest⟩ | ⟨_, hf⟩⟩⟩ hh
+        · exact DocRel.peeked (DocRel.cons_op (hod (.inl (by rw [hh]; exact hk))) hrest)
+        · exact DocRel.peeked (DocRel.cons_frag hfd hrest)
+        · exact hf.elim
+      · rename_i hk
+        refine (Spec.bind (spec_parseOperationDefinition m) fun od => ih _).mono ?_
+        rintro d a a'' _ ⟨od, a2, hod, hrest⟩ hh
+        exact DocRel.cons_op (hod (.inr (by rw [hh]; exact hk))) hrest
+      · exact Spec.of_dead_bind unexpectedError_dead
+    · rintro d a a'' _ ⟨t, a1, ⟨rfl, rfl⟩, ⟨_, e, a2, ⟨rfl, rfl⟩, ⟨he, _⟩ | ⟨_, _, a3, ⟨rfl, _⟩, t1, a4, ⟨rfl, rfl⟩, h⟩⟩ |
+        ⟨hk, rfl, rfl⟩⟩
+      · cases he
+      · exact DocRel.peeked (DocRel.peeked (DocRel.peeked (h rfl)))
+      · simp only [ne_eq, Decidable.not_not] at hk
+        exact ⟨[], [], Ate.peeked a, rfl, hk, by simp [opsOf], by simp [fragsOf], .nil⟩
+
+theorem spec_parseQueryDocument (n : Nat) : Spec (parseQueryDocument n) (DocRel { ops := [], frags := [] }) :=
+  spec_queryDocLoop n n _
+
 end Gql.Parser
